@@ -263,6 +263,7 @@ func GenChain(r *crsgen.R, fwd func(s *Scenario) []*[2]float64) []Scenario {
 	// positions in d's usable region, expressed in g's longitudes
 	var pts [][2]float64
 	var greenwich [][2]float64
+	nearEquator := false
 	for k := 0; k < 4; k++ {
 		lon, lat := d.Pos(r)
 		lg := lon + d.PMDeg - g.PMDeg
@@ -276,10 +277,20 @@ func GenChain(r *crsgen.R, fwd func(s *Scenario) []*[2]float64) []Scenario {
 		if math.Abs(lon) > 179.5 || math.Abs(lg) > 179.5 || math.Abs(lon+d.PMDeg) > 179.5 {
 			continue
 		}
+		if math.Abs(lat) < 1e-3 {
+			// proj4js's spherical transverse Mercator takes acos of a value that rounds to 1 on
+			// and next to the equator (NaN, or northings off by up to 10 cm); the port uses the
+			// stable atan2 form there (C08), so the two are not compared within 1e-3 deg of it
+			nearEquator = true
+		}
 		pts = append(pts, [2]float64{lg, lat})
 		greenwich = append(greenwich, [2]float64{lon + d.PMDeg, lat})
 	}
 	if len(pts) == 0 {
+		return nil
+	}
+	sphericalTM := func(x *crsgen.Def) bool { return (x.Proj == "tmerc" || x.Proj == "utm") && x.EllKind == "sphere" }
+	if nearEquator && sphericalTM(d) {
 		return nil
 	}
 	lab := d.Proj + ":" + datumLabel(g, d)
@@ -314,7 +325,7 @@ func GenChain(r *crsgen.R, fwd func(s *Scenario) []*[2]float64) []Scenario {
 					ok = false
 				}
 			}
-			if !ok || d2.String() == d.String() {
+			if !ok || d2.String() == d.String() || (nearEquator && sphericalTM(d2)) {
 				// identical definitions: the port returns the identity transformer (C20) while
 				// proj4js runs inverse and forward series, which differ by their own truncation
 				// error (0.33 mm observed for UTM 3 degrees from the central meridian)
